@@ -416,6 +416,68 @@ func deepOracles(run *vh.Run, g *HGen) [][2]string {
 		run.Fail("db.query (db_query in db_module.c) no longer calls sqlcheck_is_readonly_sql before sqlite3_prepare", map[string]interface{}{"gates": g.C.PrepareGates})
 	}
 
+	// ---- context slots: the translated scan step on concrete numbers
+	slotTable, slotFacts := "", ""
+	if sl := fx.Slot; sl != nil {
+		maxVm, chain := sl.constVals["MaxVmService"], sl.constVals["ChainService"]
+		var cells []string
+		for m := int64(3); m <= 9; m++ {
+			for i := int64(1); i < m; i++ {
+				v, ok := sl.Eval(m, i)
+				if !ok {
+					v = -1
+				}
+				cells = append(cells, fmt.Sprintf("%d:%d>%d", m, i, v))
+			}
+		}
+		slotTable = strings.Join(cells, " ")
+		if sl.StepLean == "" {
+			run.Fail("the slot scan of allocContextSlot is outside the subset the translator handles ("+sl.StepWhy+"): theorems slot_step_in_range / slot_scan_never_reserved no longer speak about the code",
+				map[string]interface{}{"statements": sl.StepSrc, "why": sl.StepWhy})
+		} else {
+			reported := false
+			for m := maxVm + 1; m <= 40 && !reported; m++ {
+				for i := chain; i < m && !reported; i++ {
+					run.Eval(fmt.Sprintf("slotstep %d %d", m, i), true)
+					v, ok := sl.Eval(m, i)
+					if !ok || v < maxVm || v >= m {
+						reported = true
+						run.Fail(fmt.Sprintf("allocContextSlot: with maxContext=%d the scan goes from index %d to slot %d, which is not a query slot [%d, %d) — slots below MaxVmService hold the context of the running transaction (`%s`)",
+							m, i, v, maxVm, m, sl.StepSrc),
+							map[string]interface{}{"maxContext": m, "index": i, "next": v, "statements": sl.StepSrc,
+								"how": "a query that is handed slot ChainService has its host calls checked against the context Call/Create store there (isQuery false), and nils the slot when it ends"})
+					}
+				}
+			}
+		}
+		init := sl.InitLean
+		if init == "" {
+			init = "(-1)"
+		}
+		if v, ok := sl.constVals[init]; ok {
+			init = fmt.Sprint(v)
+		}
+		var sc [][2]string
+		for _, n := range []string{"allocContextSlot", "freeContextSlot"} {
+			for _, c := range fx.CallersOf[n] {
+				sc = append(sc, [2]string{n, c})
+			}
+		}
+		slotFacts = fmt.Sprintf("init=%s translated=%v ", init, sl.StepLean != "") + triples(sl.SlotWrites) + " | " + pairs(sl.SvcWrites) + " | " + pairs(sl.LastWrites) + " | " + pairs(sc)
+		okW := map[[2]string]bool{{"Call", "ctx.service"}: true, {"Create", "ctx.service"}: true, {"InitContext", "*"}: true, {"allocContextSlot", "index"}: true, {"freeContextSlot", "ctx.service"}: true}
+		for _, w := range sl.SlotWrites {
+			if !okW[[2]string{w[0], w[1]}] {
+				run.Fail(fmt.Sprintf("%s writes contexts[%s] = %s: the context slots are no longer written only by Call/Create (service slots) and allocContextSlot/freeContextSlot (query slots)", w[0], w[1], w[2]),
+					map[string]interface{}{"function": w[0], "index": w[1], "value": w[2]})
+			}
+		}
+		for _, w := range sl.LastWrites {
+			if w[0] != "allocContextSlot" || w[1] != "index" {
+				run.Fail(fmt.Sprintf("%s assigns lastQueryIndex = %s: the scan position is no longer a value of the scan itself", w[0], w[1]), map[string]interface{}{"function": w[0], "value": w[1]})
+			}
+		}
+	}
+
 	ro := append([]string(nil), fx.RoCallees...)
 	sort.Strings(ro)
 	var opens []string
@@ -438,6 +500,7 @@ func deepOracles(run *vh.Run, g *HGen) [][2]string {
 		{"flagBranches", triples(fx.FlagBranches)}, {"roCallees", strings.Join(ro, " ")}, {"checkViewRet", strings.Join(cvr, " ")},
 		{"sqlReadonly", pairs(g.C.SQLReadonlyFirst) + " | " + pairs(g.C.SQLReadonlyPragmas)}, {"sqlGateOK", fmt.Sprintf("%v %v", firstOK, pragmasOK)},
 		{"cPrepareGates", pairs(g.C.PrepareGates)},
+		{"slotStepTable", slotTable}, {"slotFacts", slotFacts},
 		{"refuseExempt", strings.Join(ex, " ")}, {"cErrChecks", strings.Join(errChecks, " ")}, {"refuseOK", fmt.Sprint(refuseOK)}, {"viewBracket", viewBracket}, {"isViewSet", isViewSet},
 	}
 }
